@@ -11,6 +11,7 @@ import Fir.Model.ProtoCoeffs
 import Fir.Model.SimdU8x4
 import Fir.Model.SimdVertU8
 import Fir.Model.SimdU8x3
+import Fir.Model.SimdVertU16
 namespace Fir
 
 /-- C02 tolerance between two back-ends: integers identical, f32 a few ulps of a re-associated f64 sum -/
@@ -121,10 +122,44 @@ def handleKernel (fs : List (String × String)) : String :=
                   return some s!"lane model of the SSE4.1 U8x3 one-row kernel: pixel ({x},{y}) channel {ch}: model={px.getD ch 0} got={got[(y * dw + x) * 3 + ch]!}"
           return none
         else none
-      let lane := match lane, laneV, lane3 with
-        | some a, _, _ => some a
-        | none, some b, _ => some b
-        | none, none, c => c
+      -- 16-bit components on SSE4.1, vertical pass: rows cut into chunks of 16, (once) 8 and (once) 4 components
+      let laneV16 : Option String :=
+        if p.kind == .u16 ∧ ext == "sse4" ∧ pass == "v" ∧ got.size == dw * dh * p.n then Id.run do
+          let q := normalize32 c
+          let n := p.n
+          let rowLen := dw * n
+          for y in [0:dh] do
+            let (start, ks) := q.chunks.getD y (0, #[])
+            let ksl := ks.toList
+            let rows : List (List Int) := (List.range ksl.length).map fun r =>
+              (List.range (sw * n)).map fun i => src[(start + r) * sw * n + i]!
+            let mut xs := offset * n
+            let mut done := 0
+            let mut outRow : List Int := []
+            while rowLen - done ≥ 16 do
+              outRow := outRow ++ SimdVertU16.chunk16 q.precision rows ksl xs
+              xs := xs + 16
+              done := done + 16
+            if rowLen - done ≥ 8 then
+              outRow := outRow ++ SimdVertU16.block8 q.precision rows ksl xs
+              xs := xs + 8
+              done := done + 8
+            if rowLen - done ≥ 4 then
+              outRow := outRow ++ SimdVertU16.chunk4 q.precision rows ksl xs
+              xs := xs + 4
+              done := done + 4
+            for j in [0:rowLen - done] do
+              outRow := outRow ++ [clip16 (2 ^ (q.precision - 1) + SimdVertU16.dotV16 rows ksl (xs + j)) q.precision]
+            for i in [0:rowLen] do
+              if outRow.getD i 0 ≠ got[y * rowLen + i]! then
+                return some s!"lane model of the SSE4.1 vertical u16 kernel: row {y} component {i}: model={outRow.getD i 0} got={got[y * rowLen + i]!}"
+          return none
+        else none
+      let lane := match lane, laneV, lane3, laneV16 with
+        | some a, _, _, _ => some a
+        | none, some b, _, _ => some b
+        | none, none, some c, _ => some c
+        | none, none, none, d => d
       let m := match m, lane with
         | some a, _ => some a
         | none, some b => some b
